@@ -442,7 +442,7 @@ def unitish2 (n : V2 Float) : Bool := let s := (q2 n).normSq; absQ (s - 1) ≤ 1
 `face-vertex | face-edge | face-face` when a face normal of one box realises the distance (1, 2, ≥ 3 vertices of the other
 box on the extreme plane), `edge-edge` when the interiors of two crossed edges are strictly closer than every pair involving
 a vertex, `vertex` otherwise (vertex–edge, vertex–vertex, parallel edges). Relative guards (1e-4 / 1e-3 on squared lengths)
-keep near-ties out of `face-vertex` / `edge-edge`. -/
+and the absolute oracle tolerance `tol` (touching boxes: the distance is at rounding level) keep near-ties out of `edge-edge`. -/
 def cuboidPoseClass (A B : Core) (tol : Rat) : String :=
   let mn (l : List Rat) : Rat := match l with | [] => 0 | x :: xs => xs.foldl minQ x
   let m12 := minQ (mn (A.verts.map B.distSq)) (mn (B.verts.map A.distSq))
@@ -456,14 +456,14 @@ def cuboidPoseClass (A B : Core) (tol : Rat) : String :=
         let maxP := as.foldl maxQ a; let minP := as.foldl minQ a
         let maxR := bs.foldl maxQ b; let minR := bs.foldl minQ b
         let sep := maxQ (minR - maxP) (minP - maxR)
-        if sep > 0 && sep * sep ≥ m * (1 - 1 / 10000) then
+        if sep + tol > 0 && (sep + tol) * (sep + tol) ≥ m * (1 - 1 / 10000) then
           let ext := if minR - maxP ≥ minP - maxR then minR else maxR
           Nat.max acc ((b :: bs).filter fun x => absQ (x - ext) ≤ tol).length
         else acc
       | _, _ => acc) 0
   let k := Nat.max (faceHit A B) (faceHit B A)
   if k ≥ 3 then "face-face" else if k = 2 then "face-edge" else if k = 1 then "face-vertex"
-  else if m3 * 1000 < m12 * 999 then "edge-edge" else "vertex"
+  else if m3 * 1000 < m12 * 999 && sqrtQ m12 > sqrtQ m3 + 2 * tol then "edge-edge" else "vertex"
 
 def oracleCuboidCuboid (isDist : Bool) (a o : List String) : String :=
   match run (do let m ← (if isDist then pure 0 else pf); let h1 ← pv3; let h2 ← pv3; let p ← piso3; pure (m, h1, h2, p)) a with
